@@ -282,6 +282,54 @@ def out_dims(dims, sel, newdim='POINTS'):
     return tuple(dims)
 
 
+# ---------------------------------------------------------------------------
+# attributes carried over by the IOAPI wrapper of sliceDimensions (whose createVariable fills in defaults of its own)
+# ---------------------------------------------------------------------------
+from contracts import C11 as _C11   # noqa: E402
+
+
+class IoapiSliceAttributes(_C11.SliceTime):
+    """ioapi_base.sliceDimensions(TSTEP=window) on the file of the C11 contract (any number of steps / variable columns / rows;
+    integer, unit-stride slice or index array): the data variable of the result carries the SOURCE attributes (units,
+    long_name, var_desc with values that differ from what the IOAPI createVariable fills in by itself) and no others, and its
+    rows are the selected rows"""
+    prop = 'C02'
+
+    def __init__(self, kind):
+        _C11.SliceTime.__init__(self, kind)
+        self.name = 'ioapi.sliceDimensions[TSTEP as %s]: attributes carried over' % kind
+
+    def ensures(self, inp, res, I):
+        base = _C11.SliceTime.ensures(self, inp, res, I)
+        keep = [c for c in base if c[0] in ('returns-file', 'TFLAG-and-data-variable-present', 'data rows are the selected rows of the source')]
+        return keep + [self.attr_clause(res)]
+
+    def on_raise(self, inp, exc, I):
+        return [('raises-only-ValueError-from-an-invalid-time-flag (raised %s)' % exc, exc == 'ValueError')]
+
+    def replay(self, c):
+        import numpy as np
+        from rtc import harness as H, ioapi as IOH
+        P = H.real()
+        f = IOH.make_ioapi(P, nt=5, nz=2, ny=3, nx=4, sdate=2020366, stime=210000, tstep=10000)
+        v = f.variables['V0']
+        v.long_name, v.var_desc, v.units = 'Ozone', 'ozone, not padded', 'ppm'
+        want = {k: getattr(v, k) for k in v.ncattrs()}
+        for sel in {'int': [-1, 2], 'slice': [slice(1, 4)], 'index-array': [np.array([4, 4, 1])]}[c['kind']]:
+            try:
+                g = f.sliceDimensions(TSTEP=sel)
+            except Exception as e:
+                return False, dict(raised=type(e).__name__, message=str(e)[:160], TSTEP=repr(sel))
+            gv = g.variables['V0']
+            got = {k: getattr(gv, k) for k in gv.ncattrs()}
+            if got != want:
+                return False, dict(TSTEP=repr(sel), attributes_after={k: repr(x) for k, x in got.items()}, source={k: repr(x) for k, x in want.items()})
+        return True, dict(kind=c['kind'])
+
+
+CONTRACTS += [IoapiSliceAttributes(k) for k in ('int', 'slice', 'index-array')]
+
+
 def bounded(tier, seed):
     from rtc import harness as H
     import numpy as np
@@ -458,7 +506,8 @@ META = dict(
     text='Proved for dimensions of ANY length and any integer / slice bounds (step 1, 2, -1) / index array of any length with repeats and negative entries, on a file with a '
          'rank-2 and two rank-1 variables: dimension lengths are the selection lengths (1 for an integer), every element of every variable is the element the per-axis '
          'selection picks, in order, variables without the selected dimension are identical, attributes and unlimited flags carried, fresh buffers, input unchanged, and only '
-         'an out-of-range integer raises (IndexError). Bounded: all single-axis and two-axis selector combinations incl. zipped index lists, masks, against an independent numpy.take oracle.',
+         'an out-of-range integer raises (IndexError). Also proved: through the IOAPI wrapper (whose createVariable fills in defaults of its own) a TSTEP window given as integer / slice / index array '
+         'leaves the data variable with exactly the source attributes and the selected rows (the C11 contract set-up re-used with a C02 post-condition). Bounded: all single-axis and two-axis selector combinations incl. zipped index lists, masks, against an independent numpy.take oracle.',
     note='numpy slicing (views), arange/size and the single-index-array gather are trusted models (pyvc/nparr.py); the zipped selection (several index lists), masked variables, '
          'rank > 2 and the ioapi / slice_dim wrappers are bounded only.',
     assumptions=['numpy basic indexing = views with start/step/length per axis (slice.indices semantics)', 'numpy indexing with one 1-D integer array among slices keeps the axis in place',
